@@ -108,6 +108,49 @@ def model_result_map_err(eng, fn, bb, t, env, state, args, where):
     return out
 
 
+def _known_callable(args):
+    f = args[1] if len(args) > 1 else TOP
+    if f[0] == "cell":
+        f = f[1]
+    return f[0] in ("clo", "fn")
+
+
+def model_result_map(eng, fn, bb, t, env, state, args, where):
+    """Result::map(f): f runs on the Ok payload only"""
+    if _known_callable(args):
+        return A._hof(RESULT, "Ok", "Ok")(eng, fn, bb, t, env, state, args, where)  # a closure of the library itself
+    a = args[0]
+    ex = eng.expand(a, RESULT) if a[0] in ("top", "e") else None
+    if ex is None:
+        return [(TOP, env, state)]
+    out = []
+    for n, p in ex[2]:
+        if n == "Err":
+            out.append((enum(RESULT, [("Err", p)]), env, state))
+        else:
+            st = eng.auto.event(state, ("closure_call", "f(%s)" % (render(p) if p else "")), where)
+            out.append((enum(RESULT, [("Ok", ("top", "cl"))]), env, st))
+    return out
+
+
+def model_result_and_then(eng, fn, bb, t, env, state, args, where):
+    """Result::and_then(f): f runs on the Ok payload only and its Result is the result"""
+    if _known_callable(args):
+        return A._hof(RESULT, "Ok", None)(eng, fn, bb, t, env, state, args, where)
+    a = args[0]
+    ex = eng.expand(a, RESULT) if a[0] in ("top", "e") else None
+    if ex is None:
+        return [(TOP, env, state)]
+    out = []
+    for n, p in ex[2]:
+        if n == "Err":
+            out.append((enum(RESULT, [("Err", p)]), env, state))
+        else:
+            st = eng.auto.event(state, ("closure_call", "f(%s)" % (render(p) if p else "")), where)
+            out.append((("top", "cl"), env, st))
+    return out
+
+
 # declared return type of the closure parameter (its result is split into the variants of that type)
 CL_KIND = {
     P + "or_parse": PARSED,
@@ -234,6 +277,8 @@ def run(ctx):
     saved = dict(A.MODELS)
     A.MODELS["core::convert::From::from"] = model_from
     A.MODELS["core::result::Result::map_err"] = model_result_map_err
+    A.MODELS["core::result::Result::map"] = model_result_map
+    A.MODELS["core::result::Result::and_then"] = model_result_and_then
     rows = 0
     try:
         for fid, cases in sorted(SPEC.items()):
